@@ -58,6 +58,7 @@ def replay_map(ev, stats: Stats, out: list):
                 out.append(Violation("MapPos", "StepMap.map", f"map {desc} pos={p} assoc={assoc}: spec {exp['pos']} code {got}",
                                      {"kind": "stepmap", "map": desc, "pos": p, "assoc": assoc, "expected": exp}))
             got = _guard(lambda: (lambda r: {"pos": r.pos, "del": r.del_info, "rec": -1 if r.recover is None else r.recover})(sm.map_result(p, assoc)))
+            exp = dict(exp, rec=pack_rec(exp["rec"]))
             want = {"pos": exp["pos"], "del": exp["del"], "rec": exp["rec"]}
             if got != ("ok", want):
                 out.append(Violation("MapRes", "StepMap.map_result", f"map {desc} pos={p} assoc={assoc}: spec {want} code {got}",
@@ -82,7 +83,7 @@ def replay_map(ev, stats: Stats, out: list):
                                          {"kind": "stepmap", "map": desc, "pos": p, "assoc": assoc, "expected": exp}))
         # a recover value that names no range of an untouched position
         got = _guard(lambda: sm.touches(p, 0))
-        if ev["q"][p][0]["rec"] == -1 and ev["q"][p][1]["rec"] == -1:
+        if pack_rec(ev["q"][p][0]["rec"]) == -1 and pack_rec(ev["q"][p][1]["rec"]) == -1:
             want_t = any(fe[0] <= p <= fe[1] for fe in ev["foreach"][:1])
             if got != ("ok", want_t):
                 out.append(Violation("Touches", "StepMap.touches", f"map {desc} pos={p} rec=0: spec {want_t} code {got}",
@@ -246,6 +247,33 @@ def run(tier: str, seed: int, t0: float) -> int:
             if info:
                 stats.count("rebased_steps", info["rebased"])
         jobs.append(("Trace_Doc", b2, f"T mappings[{name}]"))
+    # ---- T: large maps - sizes and offsets beyond 2^15 / 2^16 (the packed recover value keeps the range index in
+    # its low 16 bits; the offset into a deleted range is unbounded).  Positions around the powers of two, mapped
+    # through [m, inverse of m] registered as mirrors and through m alone; judged by Trace_Doc!VMapping.
+    from prosemirror.transform import Mapping, StepMap
+    bbig = trace.Batch(js2)
+    for ranges in ([5, 70000, 3], [0, 140000, 0], [2, 3, 1, 10, 66000, 7], [1, 40000, 40000, 50000, 33000, 2]):
+        for inverted in (False, True):
+            sm = StepMap(ranges).invert() if inverted else StepMap(ranges)
+            old_sizes = [ranges[i + (2 if inverted else 1)] for i in range(0, len(ranges), 3)]
+            starts = []
+            diff = 0
+            for i in range(0, len(ranges), 3):
+                starts.append(ranges[i] - (diff if inverted else 0))
+                diff += ranges[i + (1 if inverted else 2)] - ranges[i + (2 if inverted else 1)]
+            ps = set()
+            for st_, osz in zip(starts, old_sizes):
+                for off in (0, 1, 2, 32767, 32768, 65535, 65536, 65537, 65568, 131072, osz - 1, osz, osz + 1):
+                    if 0 <= off <= osz + 1:
+                        ps.add(st_ + off)
+            qs = [(p_, a_) for p_ in sorted(ps) for a_ in (-1, 1)]
+            mp1 = Mapping([sm])
+            bbig.add(rebase.snapshot(mp1, qs, tag="big"))
+            mp2 = Mapping()
+            mp2.append_map(sm)
+            mp2.append_map(sm.invert(), 0)
+            bbig.add(rebase.snapshot(mp2, qs, roundtrip=True, tag="big-mirror"))
+    jobs.append(("Trace_Doc", bbig, "T big maps"))
     # ---- T: every StepMap / Mapping query the repository's own test-suite makes (tracer plug-in)
     from .. import suitetrace
     data, last = suitetrace.record()
@@ -271,7 +299,7 @@ def run(tier: str, seed: int, t0: float) -> int:
                 out.append(Violation(v[4:], "Mapping.map_result", f"{what}: tag={e['tag']} maps={[(m['ranges'], m['inv']) for m in e['maps']]} mirror={e['mirror']} from={e['from']} to={e['to']} q={bad_q}",
                                      {"kind": "real-history mapping", "event": e}, {"tag": e["tag"]}))
     # vacuity gates
-    for key, least in (("mapping_T:undo:ok", 30), ("mapping_T:rebase-slice:ok", 30), ("mapping_T:rebase-full:ok", 20), ("mapping_T:testsuite:ok", 50), ("rebased_steps", 20), ("map_query", 1000), ("touches_query", 100), ("recover_query", 100), ("for_each", 100),
+    for key, least in (("mapping_T:undo:ok", 30), ("mapping_T:rebase-slice:ok", 30), ("mapping_T:rebase-full:ok", 20), ("mapping_T:testsuite:ok", 50), ("mapping_T:big:ok", 6), ("mapping_T:big-mirror:ok", 6), ("rebased_steps", 20), ("map_query", 1000), ("touches_query", 100), ("recover_query", 100), ("for_each", 100),
                        ("mapping_append_mapping", 10), ("mapping_append_mapping_inverted", 10),
                        ("mapping_slice", 10), ("mapping_invert", 5), ("mapping_append_mirror", 5)):
         if stats.counts.get(key, 0) < least:
@@ -284,6 +312,14 @@ def run(tier: str, seed: int, t0: float) -> int:
                             "non-trivial = at least one range / more than one operation",
                        assumptions=["mirror law is stated for maps without adjacent ranges (upstream first-match rule)",
                                     "TLC/SANY, Json module, the equality comparison in the replay"])
+
+
+def pack_rec(rec):
+    """The specification's recover value (a pair <<range index, offset>>, <<-1,-1>> for none) as the library's
+    packed integer."""
+    if isinstance(rec, int):
+        return rec
+    return -1 if rec[0] == -1 else rec[0] + rec[1] * 65536
 
 
 def replay(path: str) -> int:
